@@ -5,7 +5,7 @@
    previous members xc = ceil(xPercent*maxNodes), and perm_of n = rand.New(rand.NewSource(seed)).Perm(n).
    fixed = false is the code as it is; fixed = true the proposed repair of F-39.
    Domain rd_dom: distinct ids, 0 <= xc <= min(limit, #candidates). *)
-From ZC Require Import Model.Reduce Proof.Reduce.
+From ZC Require Import Model.Reduce Proof.Reduce Gen.ReducePurity.
 From Coq Require Import Sorting.Permutation.
 Open Scope Z_scope.
 
@@ -99,6 +99,17 @@ Theorem C39_ties_by_seed_partial :
 Proof. exact rd_ties_by_seed. Qed.
 Print Assumptions C39_ties_by_seed_partial.
 
+(* The code in /repo now has the repaired scan (rd_code_is_fixed = true in Corr/Reduce.v): the tie
+   clause in full, for every input. *)
+Theorem C39_ties_by_seed_only :
+  forall nodes prev limit xc perm_of, rd_dom nodes limit xc ->
+  let news := rd_news nodes prev xc in let y := rd_y nodes prev limit xc in
+  y < Z.of_nat (length news) -> 0 < y ->
+  rd_reduce true nodes prev limit xc perm_of =
+    Some (rd_sel0 nodes prev xc ++ rd_phase2_spec news y perm_of, rd_maxn nodes limit).
+Proof. exact (fun nodes prev limit xc perm_of H H1 H2 => rd_ties_by_seed true nodes prev limit xc perm_of H H1 H2 (or_introl eq_refl)). Qed.
+Print Assumptions C39_ties_by_seed_only.
+
 (* inside the trigger the code as it is always selects the lowest-id tied candidate and permutes
    only the others *)
 Theorem C39_trigger_behaviour :
@@ -110,6 +121,14 @@ Theorem C39_trigger_behaviour :
     Some (rd_sel0 nodes prev xc ++ hd rd_dflt G :: rd_pick (tl G) (perm_of (length (tl G))) (y - 1), rd_maxn nodes limit).
 Proof. exact rd_trigger_behaviour. Qed.
 Print Assumptions C39_trigger_behaviour.
+
+(* The model is a pure function of its arguments, so C39_deterministic covers every schedule of
+   concurrent selections -- provided the Go function keeps no state between or across calls. The
+   translator reducepurity (go/ast over smartcontract/minersc, regenerated every run) lists the
+   package-level variables and global math/rand functions that SimpleNodes.reduce and its
+   same-package callees refer to; the list must be empty. *)
+Example C39_reduce_refers_to_no_package_level_state : rd_reduce_package_state = [].
+Proof. reflexivity. Qed.
 
 (* Non-vacuity: previous members, quota, a tie below a higher stake (outside the trigger). *)
 Example C39_example :
